@@ -4,7 +4,7 @@
 //!   lcprop s <4 ascii chars>    -> <canonical script tag (decimal)> <dir guessed for that script on an empty buffer>
 //!       (both through UnicodeBuffer::new/add/set_script/guess_segment_properties/script/direction)
 //!
-//!   lc <fontpath[@index]|-> [T=<hexcp>:<tag>,…] [D=<tag>:<dir>,…] ; <op> ; <op> …
+//!   lc <fontpath[@index]|#<registered font id>|-> [T=<hexcp>:<tag>,…] [D=<tag>:<dir>,…] ; <op> ; <op> …
 //!       one public-API history on one buffer; reply `ok <state> | <state> | …` (state after every op,
 //!       read through the rb_verif hook verif::buffer::life_*).  T/D are ignored here (they are the
 //!       Unicode-script data the Lean model takes as parameters).
@@ -127,6 +127,12 @@ fn feats_of(s: &str) -> Option<Vec<Feature>> {
 }
 
 fn load_font(st: &mut State, spec: &str) -> Option<Face<'static>> {
+    // `#<id>`: a font registered in this process with `font <id> <hex>` / `fontfile <id> <path>`
+    if let Some(id) = spec.strip_prefix('#') {
+        let data: &'static [u8] = st.fonts.get(id)?;
+        let idx = *st.font_index.get(id).unwrap_or(&0);
+        return Face::from_slice(data, idx);
+    }
     let (path, idx) = match spec.rsplit_once('@') {
         Some((p, i)) => (p, i.parse::<u32>().ok()?),
         None => (spec, 0),
